@@ -121,6 +121,8 @@ ModelTree(base, items, opts, filters, pre, answers) ==
 NodeMatches(x, got) ==
   /\ (IF x.ty = "unsafe" THEN got.ty \in {"file", "link"} ELSE got.ty = x.ty)
   /\ (x.ty = "file" => (got.size = x.size /\ got.crc = x.crc))
+  \* (a dangerous link that has not been made yet is an empty placeholder file that only its owner can read and write: extract_placeholder_symlink)
+  /\ ((x.ty = "unsafe" /\ got.ty = "file") => (got.size = 0 /\ got.mode = 384))
   /\ (x.mtime # ANYT => got.mtime = x.mtime)
   /\ (x.mode # ANY => got.mode = x.mode)
   /\ (x.ty = "link" => got.traw = x.traw)
